@@ -177,7 +177,7 @@ func (q *Query) groupBy(groupByFields []groupBy, result *roaring.Bitmap, idx *In
 		for _, rg := range resultGroups {
 			for _, v := range gbf.Values {
 				vbm, err := idx.values.GetCol(v.Idx)
-				if err != nil {
+				if err != nil || vbm == nil {
 					continue
 				}
 
